@@ -28,7 +28,7 @@ def run(ctx: Context) -> None:
     with ctx.section('R19.8'):
         from . import infra as _infra198
         _infra198.keyword_overrides_kept(ctx, 'R19.8', ['emsarray.conventions._base.Convention.make_poly_collection', 'emsarray.conventions._base.Convention.make_quiver'],
-                                         ['array', 'clim', 'transform'])
+                                         ['array', 'clim', 'transform'], required=['transform'])
         _infra198.none_default_discipline(ctx, 'R19.8', ['emsarray.conventions._base.Convention.make_poly_collection', 'emsarray.conventions._base.Convention.make_quiver', 'emsarray.conventions._base.Convention.animate_on_figure',
                                                          'emsarray.plot.animate_on_figure', 'emsarray.plot.plot_on_figure'])
     ctx.rule('R19.7', "the deprecated alias make_patch_collection is make_poly_collection: the data array and every extra argument are passed on", floor=2)
@@ -257,6 +257,7 @@ from ..variants import V  # noqa: E402
 _B = 'src/emsarray/conventions/_base.py'
 _P = 'src/emsarray/plot.py'
 VARIANTS = [
+    V('C19', 'default-transform-never-set', 'src/emsarray/conventions/_base.py', "        if 'transform' not in kwargs:\n            kwargs['transform'] = self.data_crs\n\n        return polygons_to_collection", "        return polygons_to_collection", 'R19.8'),
     V('C19', 'transform-override-replaced', 'src/emsarray/conventions/_base.py', "        if 'transform' not in kwargs:\n            kwargs['transform'] = self.data_crs\n\n        return polygons_to_collection", "        if 'transform' in kwargs:\n            kwargs['transform'] = self.data_crs\n\n        return polygons_to_collection", 'R19.8'),
     V('C19', 'animation-coordinate-discarded', 'src/emsarray/conventions/_base.py', "        if coordinate is None:\n            # Assume the user wants to plot along the time axis by default.", "        if coordinate is not None:\n            # Assume the user wants to plot along the time axis by default.", 'R19.8'),
     V('C19', 'animation-scalar-name-never-resolved', 'src/emsarray/conventions/_base.py', "        if scalar is not None:\n            scalar = utils.name_to_data_array(self.dataset, scalar)\n            if coordinate_dim", "        if scalar is None:\n            scalar = utils.name_to_data_array(self.dataset, scalar)\n            if coordinate_dim", 'R19.8'),
